@@ -207,6 +207,7 @@ func (c *AbstractTokenizer) ReadNextToken() *Token {
 
 		// Get state for character
 		state := c.GetCharacterState(nextChar)
+		token = nil
 		if state != nil {
 			token = state.NextToken(c.Scanner, c)
 		}
